@@ -147,6 +147,31 @@ func c06Gen(rt *rapid.T) wProg {
 				p.Ops = append(p.Ops, wOp{K: "set", S: 0, T: "g0", A: "given", U: heir, B: "JRWPASDO"}, wOp{K: "sub", S: hs, T: "g0", A: gPick(rt, []string{"JRWPASD", "JRWPASD", "JRWPASDO"}, "hw")},
 					wOp{K: "set", S: hs, T: "g0", A: "given", U: third, B: gPick(rt, []string{"JRWPASDO", "O", "JRWPSO"}, "onward")})
 			}
+		case x < 11:
+			// ownership handed over twice: owner -> heir (accepted), heir -> a third user or back (accepted);
+			// sometimes the topic is loaded again in between or afterwards
+			heir := gInt(rt, 1, 2, "heir1")
+			next := gPick(rt, []int{0, 3 - heir}, "heir2")
+			hs, ns := sessOfUser(heir), 0
+			if next != 0 {
+				ns = sessOfUser(next)
+			}
+			if hs > 0 && ns >= 0 {
+				acc := func(k int) wOp {
+					if gPct(rt, 50) {
+						return wOp{K: "set", S: k, T: "g0", A: "mode", B: "JRWPASDO"}
+					}
+					return wOp{K: "sub", S: k, T: "g0", A: "JRWPASDO"}
+				}
+				p.Ops = append(p.Ops, wOp{K: "sub", S: hs, T: "g0"}, wOp{K: "set", S: 0, T: "g0", A: "given", U: heir, B: "JRWPASDO"}, acc(hs))
+				if gPct(rt, 25) {
+					p.Ops = append(p.Ops, wOp{K: "reload", T: "g0"})
+				}
+				p.Ops = append(p.Ops, wOp{K: "sub", S: ns, T: "g0"}, wOp{K: "set", S: hs, T: "g0", A: "given", U: next, B: "JRWPASDO"}, acc(ns))
+				if gPct(rt, 40) {
+					p.Ops = append(p.Ops, wOp{K: gPick(rt, []string{"reload", "restart"}, "after2"), T: "g0"})
+				}
+			}
 		case x < 13:
 			// ownership transfer attempt: grant by the (original) owner, optionally accepted
 			tgt := gInt(rt, 1, 2, "heir")
